@@ -70,6 +70,22 @@ register("C19",
          "TLA+ life-cycle model checked by TLC + TLC trace validation of every implementation call (code->spec)",
          "DESIGN.md §4 C19")
 
+register("C18",
+         "Polytope.tla models subdivision operationally as the code performs it (a node at the midpoint of every edge with "
+         "coinciding midpoints identified, edges replaced by halves, extra edges only between nodes of the newest level; "
+         "order of the two sub-steps per polytope) over exact integer / Z[phi] lattice coordinates, and TLC shows that it "
+         "produces exactly the declarative surface lattice and unit-edge set at every level (cube, icosahedron to level 3, "
+         "hypercube to level 2), closed under negation, with the canonical half selecting one of each antipodal pair. The "
+         "history of each real polytope object (create, get_nodes(N) cold/warm, divide_edges, ...) is logged with every "
+         "node mapped to exact lattice coordinates and validated by a trace spec that takes the model's own Divide action "
+         "for every logged division and compares node order, levels, indices, edges, projection and half selection, and "
+         "checks the prefix relation of all get_nodes results across the history.",
+         "Levels: cube/ico to 3 (quick) / 4 (thorough), hypercube to 1 / 2; float coordinates identified with lattice points "
+         "at residual < 1e-9.",
+         "TLA+ operational model vs declarative lattice checked by TLC; TLC trace validation of real object histories "
+         "re-using the model's action (code->spec)",
+         "DESIGN.md §4 C18")
+
 ALL = [f"C{i:02d}" for i in range(1, 21)]
 
 
